@@ -66,6 +66,7 @@ type Ctl struct {
 	paceElapsed []time.Duration
 	du          time.Duration
 	paceCh      chan paceAns
+	nRelease    int
 
 	// targeter
 	failMode   bool
@@ -158,7 +159,7 @@ func NewWithDuration(workers, maxWorkers uint64, maxFirst bool, du time.Duration
 
 var blockedStates = map[string]bool{
 	"chan receive": true, "chan send": true, "select": true, "semacquire": true,
-	"sync.Mutex.Lock": true, "sync.WaitGroup.Wait": true, "sleep": true, "sync.Cond.Wait": true,
+	"sync.Mutex.Lock": true, "sync.WaitGroup.Wait": true, "sync.Cond.Wait": true, // not "sleep": the loop sleeping for a pacer wait is about to move
 	"chan receive (nil chan)": true, "select (no cases)": true, "IO wait": true,
 }
 
@@ -249,7 +250,16 @@ func (c *Ctl) ReleasePace(stop bool) bool {
 	if !ok {
 		return false
 	}
-	c.paceCh <- paceAns{0, stop}
+	// the wait handed back varies (zero = "behind schedule", small positive = "on schedule"): how the loop
+	// treats a released hit must not depend on it
+	c.mu.Lock()
+	c.nRelease++
+	w := []time.Duration{0, 50 * time.Microsecond, 0, time.Microsecond, 200 * time.Microsecond}[c.nRelease%5]
+	c.mu.Unlock()
+	if stop {
+		w = 0
+	}
+	c.paceCh <- paceAns{w, stop}
 	return true
 }
 
